@@ -6,3 +6,166 @@ func vh_bits() {
 	vObserve("S", s.S)
 	vObserve("bits", out)
 }
+
+// ---- C13 ----
+
+func vh_cmp() {
+	s := vScalar("s")
+	t := vScalar("t")
+	vFreeze(t)
+	eq := s.Equal(t)
+	le := s.LessOrEqual(t)
+	z := s.IsZero()
+	o := s.IsOne()
+	vObserve("eq", eq)
+	vObserve("le", le)
+	vObserve("iszero", z)
+	vObserve("isone", o)
+	vObserve("S", s.S)
+	vObserve("T", t.S)
+}
+
+func vh_cmp_self() {
+	s := vScalar("s")
+	vObserve("eq", s.Equal(s))
+	vObserve("le", s.LessOrEqual(s))
+}
+
+func vh_equal_nil() {
+	s := vScalar("s")
+	vObserve("eq", s.Equal(nil))
+}
+
+// alias: 0 all distinct, 1 u==v, 2 r==u, 3 r==v, 4 all the same
+func vh_cselect(alias int) {
+	r := vScalar("r")
+	u := vScalar("u")
+	v := vScalar("v")
+	switch alias {
+	case 1:
+		v = u
+	case 2:
+		u = r
+	case 3:
+		v = r
+	case 4:
+		u = r
+		v = r
+	}
+	c := vNondetU64("c")
+	us, vs := u.S, v.S
+	err := r.CSelect(c, u, v)
+	vObserve("err", err)
+	vObserve("R", r.S)
+	vObserve("U0", us)
+	vObserve("V0", vs)
+	vObserve("U1", u.S)
+	vObserve("V1", v.S)
+}
+
+// which: 0 u nil, 1 v nil, 2 both nil
+func vh_cselect_nil(which int) {
+	r := vScalar("r")
+	u := vScalar("u")
+	v := vScalar("v")
+	if which == 0 || which == 2 {
+		u = nil
+	}
+	if which == 1 || which == 2 {
+		v = nil
+	}
+	c := vNondetU64("c")
+	r0 := r.S
+	err := r.CSelect(c, u, v)
+	vObserve("err", err)
+	vObserve("R0", r0)
+	vObserve("R", r.S)
+}
+
+// ---- C07 ----
+
+func vh_scalar_decode(n int, via int) {
+	in := vNondetBytes("in", n)
+	s := vScalar("s")
+	vFreeze(in)
+	s0 := s.S
+	var err error
+	switch via {
+	case 0:
+		err = s.Decode(in)
+	case 1:
+		err = s.UnmarshalBinary(in)
+	}
+	vObserve("err", err)
+	vObserve("S0", s0)
+	vObserve("S", s.S)
+}
+
+func vh_scalar_decode_nil() {
+	s := vScalar("s")
+	vObserve("err", s.Decode(nil))
+}
+
+func vh_scalar_encode(via int) {
+	s := vScalar("s")
+	s0 := s.S
+	var out []byte
+	var err error
+	vMark()
+	switch via {
+	case 0:
+		out = s.Encode()
+	case 1:
+		out, err = s.MarshalBinary()
+	}
+	vObserve("out", out)
+	vObserve("err", err)
+	vObserve("S0", s0)
+	vObserve("S", s.S)
+}
+
+func vh_scalar_roundtrip() {
+	s := vScalar("s")
+	t := vScalar("t")
+	err := t.Decode(s.Encode())
+	vObserve("err", err)
+	vObserve("S", s.S)
+	vObserve("T", t.S)
+}
+
+func vh_scalar_roundtrip2() {
+	in := vNondetBytes("in", 32)
+	t := vScalar("t")
+	err := t.Decode(in)
+	vObserve("err", err)
+	vObserve("out", t.Encode())
+}
+
+func vh_scalar_hex_roundtrip() {
+	s := vScalar("s")
+	t := vScalar("t")
+	err := t.DecodeHex(s.Hex())
+	vObserve("err", err)
+	vObserve("S", s.S)
+	vObserve("T", t.S)
+}
+
+// hex string of 2n digits decoding to arbitrary bytes, or an invalid string
+func vh_scalar_decodehex(n int) {
+	h := vNondetHexString("h", n)
+	s := vScalar("s")
+	s0 := s.S
+	err := s.DecodeHex(h)
+	vObserve("err", err)
+	vObserve("S0", s0)
+	vObserve("S", s.S)
+}
+
+// ---- C18 ----
+
+func vh_random() {
+	s := vScalar("s")
+	r := s.Random()
+	vObserve("same", r == s)
+	vObserve("S", s.S)
+}
